@@ -15,10 +15,12 @@ import (
 	"os"
 	"path/filepath"
 	"strconv"
+	"strings"
 	"sync"
 
 	"github.com/tucats/ego/internal/caches"
 	"github.com/tucats/ego/internal/defs"
+	"github.com/tucats/ego/internal/router"
 	sym "github.com/tucats/ego/internal/zzverif/sym"
 	_ "modernc.org/sqlite"
 )
@@ -90,5 +92,58 @@ func c29NativeOrigin() {
 	sym.Assert(total == n, "the number of flush messages is not the number of active peers")
 	for _, g := range got {
 		sym.Assert(g == 1, "a peer was skipped or flushed twice")
+	}
+}
+
+// c29NativeReceiver: the real FlushCacheHandler on a real request (real cluster
+// token check, real JSON decoding, real response writer).
+func c29NativeReceiver() {
+	ids := []int{caches.UserCache, caches.TokenCache, caches.DSNCache, caches.OAuthCodeCache, caches.OAuthRefreshCache, caches.OAuthJWTCache}
+	id := ids[sym.Choice("cache", len(ids))]
+	tokenValid, decodeFails := sym.Bool("tokenValid"), sym.Bool("decodeFails")
+	hops := int(sym.Int8("hops"))
+	savedName, savedDB, savedID := ClusterName, systemDB, NodeID
+	ClusterName, systemDB, NodeID = "c", nil, "self" // no membership table: a re-broadcast would have nobody to go to, and is counted by OnPurge
+	defer func() { ClusterName, systemDB, NodeID = savedName, savedDB, savedID }()
+	for _, c := range ids {
+		caches.PurgeLocal(c)
+		caches.Add(c, "k", "v")
+	}
+	purged := 0
+	var mu sync.Mutex
+	caches.OnPurge = func(int) { mu.Lock(); purged++; mu.Unlock() }
+	defer func() { caches.OnPurge = nil }()
+	body := fmt.Sprintf(`{"cache_id":%d,"sender_id":"n9","hops":%d}`, id, hops)
+	if decodeFails {
+		body = "{not json"
+	}
+	r := httptest.NewRequest(http.MethodPost, "/services/cluster/flush", strings.NewReader(body))
+	if tokenValid {
+		r.Header.Set("Authorization", ClusterAuthHeader())
+	} else {
+		r.Header.Set("Authorization", "Bearer cluster-0000")
+	}
+	w := httptest.NewRecorder()
+	st := FlushCacheHandler(&router.Session{ID: 1, Language: "en"}, w, r)
+	sym.Observe("statusClass", st/100)
+	sym.Observe("cacheKept", caches.Size(id))
+	mu.Lock()
+	n := purged
+	mu.Unlock()
+	sym.Assert(n == 0, "a received flush fired the purge notification (which broadcasts)")
+	if tokenValid && !decodeFails {
+		sym.Assert(st == http.StatusOK, "a valid flush request was not answered with success")
+		if hops <= maxFlushHops {
+			sym.Assert(caches.Size(id) == 0, "a valid flush request did not discard the named cache")
+		}
+		for _, c := range ids {
+			if c != id {
+				sym.Assert(caches.Size(c) == 1, "a flush request discarded another cache")
+			}
+		}
+	} else {
+		for _, c := range ids {
+			sym.Assert(caches.Size(c) == 1, "an unauthenticated or undecodable flush request discarded a cache")
+		}
 	}
 }
